@@ -47,18 +47,29 @@ class RecRS(np.random.RandomState):
         return p
 
 
+class Runaway(Exception):
+    """the run under test was stopped by the harness: far more epochs / batches / seconds than any run of the pinned code"""
+
+
 class RecBatchify:
     """wraps (and replaces) `model._batchify`; forwards `.indices` of a decorated generator function"""
 
-    def __init__(self, inner, log):
+    def __init__(self, inner, log, max_calls=10 ** 9):
         self.inner = inner
         self.log = log
+        self.max_calls = max_calls
+        self.ncalls = 0
         self.__name__ = getattr(inner, "__name__", "_batchify")
 
     def __call__(self, X, affinity_matrix=None, random_state=None):
         call = {"X": X, "A": affinity_matrix, "yields": []}
+        self.ncalls += 1
+        if self.ncalls > self.max_calls:
+            raise Runaway(f"more than {self.max_calls} epochs")
         self.log.append(("call", call))
         for xb, ab in self.inner(X, affinity_matrix, random_state):
+            if len(call["yields"]) > 4 * len(X) + 10:
+                raise Runaway(f"more than {4 * len(X) + 10} batches in one epoch")
             rec = getattr(self.inner, "indices", None)
             y = {"xb": np.array(xb, copy=True), "ab": None if ab is None else np.array(ab, copy=True),
                  "xb_obj_is_X": xb is X, "ab_obj_is_A": (ab is affinity_matrix) and ab is not None,
@@ -165,8 +176,16 @@ def instrument(log):
 def run_real(spec, X, y):
     """one instrumented run of the real code; returns dict(log, model, error, path_out)"""
     import warnings
+    import signal
     log = []
     out = {"log": log, "error": None, "model": None, "path_out": None}
+    is_fit = spec.get("op", "fit") == "fit"
+    max_calls = (max(spec["max_iter"], 0) + 3) if is_fit else 300
+
+    def on_alarm(signum, frame):
+        raise Runaway("wall-clock limit of 60 s for one tiny run")
+    old_handler = signal.signal(signal.SIGALRM, on_alarm)
+    signal.alarm(60)
     with instrument(log), warnings.catch_warnings():
         warnings.simplefilter("ignore")
         try:
@@ -174,7 +193,7 @@ def run_real(spec, X, y):
             if spec.get("decorated"):
                 from gemclus.mlcl import add_mlcl_constraint
                 model = add_mlcl_constraint(model, must_link=spec.get("ml") or None, cannot_link=spec.get("cl") or None)
-            model._batchify = RecBatchify(model._batchify, log)
+            model._batchify = RecBatchify(model._batchify, log, max_calls)
             out["model"] = model
             if spec.get("op", "fit") == "fit":
                 model.fit(X, y)
@@ -188,6 +207,9 @@ def run_real(spec, X, y):
                 out["path_out"] = model.path(X, y, **spec.get("path_kw", {}))
         except Exception as e:          # classified by the caller
             out["error"] = e
+        finally:
+            signal.alarm(0)
+            signal.signal(signal.SIGALRM, old_handler)
     return out
 
 
